@@ -398,6 +398,24 @@ class Ambient:
             raise ValueError(route)
 
 
+def fingerprint():
+    """the ambient state the settings touch, for the check that a setting is gone after its `with` block"""
+    mgr = logging.root.manager
+    logs = sorted((n, lg.level, tuple(id(h) for h in lg.handlers), lg.propagate, lg.disabled)
+                  for n, lg in mgr.loggerDict.items()
+                  if isinstance(lg, logging.Logger) and (lg.level or lg.handlers or not lg.propagate or lg.disabled))
+    try:
+        fd2 = tuple(os.fstat(2)[:3])
+    except OSError:
+        fd2 = None
+    return dict(loggers=logs, root=(logging.root.level, tuple(id(h) for h in logging.root.handlers)), disable=mgr.disable,
+                capture=getattr(logging, "_warnings_showwarning", None) is not None,
+                env=sorted(os.environ.items()), cwd=os.getcwd(), filters=[repr(f) for f in warnings.filters],
+                showwarning=id(warnings.showwarning), stdout=id(sys.stdout), stderr=id(sys.stderr),
+                nperr=sorted(np.geterr().items()), npprint=repr(sorted((k, repr(v)) for k, v in np.get_printoptions().items())),
+                trace=repr(sys.gettrace()), fd2=fd2)
+
+
 # ---------------------------------------------------------------------------------------------
 # settings: a grid of single deviations (every value of every dimension), then combinations
 # ---------------------------------------------------------------------------------------------
@@ -655,6 +673,7 @@ class CaseRunner:
                 if r not in self.shared:
                     self.shared[r] = self.new_gen()
             pre = self.shared
+        before = fingerprint()
         with Ambient(setting, self.scratch) as amb:
             for r in routes:
                 try:
@@ -674,6 +693,10 @@ class CaseRunner:
                         self.shared.pop(r, None)
                     out[r] = dict(raised=type(e).__name__, msg=str(e)[:300], exc=e, traceback=traceback.format_exc()[-1500:])
             self.log_lines = amb.log_lines()
+        after = fingerprint()
+        if after != before:
+            raise RuntimeError("the harness did not restore the ambient state after the setting: %s"
+                               % sorted(k for k in before if before[k] != after[k]))
         return out
 
 
